@@ -12,7 +12,7 @@
 namespace {
 enum { EV_SUBMIT = 110, EV_RUN_ENTER = 111, EV_RUN_EXIT = 112, EV_DESTROY = 113, EV_OP = 114, EV_OP_RET = 115 };
 enum { CELL_DESTROYED = 10, CELL_RUNNING = 11, CELL_RAN = 12 };
-const int MAXTASK = 8;
+const int MAXTASK = 96;      // (the stateful pass keeps per-task cells for the first 8 only; its scripts are short)
 
 tulz::ThreadPool *g_pool;
 
@@ -113,6 +113,8 @@ struct Spec {
     int create_faults = 0;      // thread creation may fail (EAGAIN) that many times; start() then throws std::system_error, which the owner catches
     bool stateful = false;      // all schedules (no preemption bound), cut off at visited states; task life cycles judged online in cells
     int spurious = 0;           // spurious wake-ups of waiting workers the scheduler may generate per execution (each costs 1 from the bound)
+    bool single = false;        // a program too large to enumerate: only its default schedule is executed
+    std::string label;          // short name for long scripts
 };
 
 struct TaskInfo { int submit = -1, enter = -1, exit = -1, destroy = -1, enters = 0, destroys = 0, run_tid = -1; bool must_run = false; };
@@ -274,11 +276,12 @@ std::string ev_name(const vs_ev &e) {
 void add(VSuite &suite, Spec s, int bound, const std::string &flavour) {
     if (s.stateful && !kKnownLayout) return;      // the stateful pass needs the complete state of the pool
     VProgram p;
-    p.name = s.script + "-max" + std::to_string(s.maxThreads) + (s.expiry >= 0 ? "-expiry" + std::to_string(s.expiry) : "") + (s.spurious ? "+spurious" : "") + (s.create_faults ? "+nothread" : "") + (s.stateful ? "@all" : "");
+    p.name = (s.label.empty() ? s.script : s.label) + "-max" + std::to_string(s.maxThreads) + (s.expiry >= 0 ? "-expiry" + std::to_string(s.expiry) : "") + (s.spurious ? "+spurious" : "") + (s.create_faults ? "+nothread" : "") + (s.stateful ? "@all" : "");
     p.spurious = s.spurious; p.stateful = s.stateful; p.create_faults = s.create_faults;
     p.describe = "owner script " + s.script + " (S start task, F start a functor through the template start(), L the same with a named functor that dies right after the call, C clear, X stop, W wait until all submitted tasks are destroyed, U update, A advance the clock past the expiry timeout, G getters), maxThreadCount=" +
                  std::to_string(s.maxThreads) + ", expiryTimeout=" + std::to_string(s.expiry) + "; every task has a scheduling point inside run()" + (s.spurious ? "; one spurious wake-up of a waiting worker may happen anywhere (costs 1 like a preemption)" : "") +
                  (s.create_faults ? "; the creation of one worker thread may fail with EAGAIN (costs 1 like a preemption): start() throws, the owner catches and carries on" : "");
+    p.single_schedule = s.single; if (s.single) { p.name += "@once"; p.describe += "; ONE schedule only (the default one): the program is too large to enumerate and is run as a plain scenario"; }
     p.bound = bound;
     p.unlock_points = true;         // ThreadPool publishes flags outside its mutexes: make every release a scheduling point
     p.body = [s] { if (s.stateful) run_stateful(s); else run(s); };
@@ -321,6 +324,14 @@ bool provider(const std::string &prop, const std::string &tier, const std::strin
     { Spec s = base; s.script = "FSCFX"; s.maxThreads = 1; add(suite, s, 3, flavour); }
     { Spec s = base; s.script = "LLWX"; s.maxThreads = 1; add(suite, s, 2, flavour); }           // named functors that die before the worker gets to them
     { Spec s = base; s.script = "SLX"; s.maxThreads = 2; add(suite, s, 2, flavour); }
+    // ---- many tasks: whatever the queue does differently above some length (a ring that grows, a vector with a moving head) is on both sides of it here
+    {
+        { Spec s = base; s.script = std::string(20, 'S') + "WX"; s.label = "Sx20,W,X"; s.maxThreads = 1; add(suite, s, 1, flavour); }
+        { Spec s = base; s.script = std::string(20, 'S') + "X"; s.label = "Sx20,X"; s.maxThreads = 2; add(suite, s, 1, flavour); }
+        for (int n : {17, 33, 40, 70}) for (int mt : {1, 2, 3}) { Spec s = base; s.script = std::string(n, 'S') + "WX"; s.label = "Sx" + std::to_string(n) + ",W,X"; s.maxThreads = mt; s.single = true; add(suite, s, 0, flavour); }
+        { Spec s = base; s.script = std::string(33, 'S') + "C" + std::string(18, 'S') + "WX"; s.label = "Sx33,C,Sx18,W,X"; s.maxThreads = 2; s.single = true; add(suite, s, 0, flavour); }
+        { Spec s = base; s.script = std::string(40, 'S') + "X"; s.label = "Sx40,X"; s.maxThreads = 2; s.single = true; add(suite, s, 0, flavour); }
+    }
     // ---- stateful pass: ALL schedules of these scripts
     if (flavour == "plain" || flavour == "hooked") {
         for (int mt : {1, 2}) for (const char *sc : {"SWX", "SX", "SSWX", "SSX", "SCSWX", "SXSWX", "SSCX", "SWSWX", "SWXX"}) { Spec s = base; s.script = sc; s.maxThreads = mt; s.stateful = true; add(suite, s, 0, flavour); }
